@@ -612,7 +612,10 @@ pub fn check_cli_reports(ctx: &Ctx, bin: &str, reference: Option<(f64, f64)>, lo
         }
     }
     let mut cmd = std::process::Command::new(bin);
-    cmd.args(["-i", path.to_str().unwrap(), "-d", "0"]);
+    cmd.args(["-i", path.to_str().unwrap()]);
+    if rep["dedup"] != "default" {
+        cmd.args(["-d", "0"]);
+    }
     if let Some((la, lo)) = reference {
         cmd.arg(format!("--reference={la:?},{lo:?}"));
     }
@@ -1102,6 +1105,38 @@ pub fn run(ctx: &Ctx) {
     // the decode1090 binary has its own loop around decode_position (anchor crates/decode1090/src/main.rs)
     match std::env::var("DECODE1090_BIN") {
         Ok(bin) => {
+            // its default mode groups identical frames for 400 ms before decoding them. Two aircraft, no repeated frame;
+            // the address of the second is solved (the CRC is linear in the address bits) so that one of its reports
+            // ends in the same three parity bytes as a report of the first heard a quarter of a second earlier: two
+            // different frames that coincide in their checksum. What is decoded for an aircraft may not depend on it.
+            let cases: Vec<(u32, usize, bool)> = (0..ctx.tier.pick(24u32, 200u32)).map(|k| (0x3c0000 + k * 0x10f0f, (k as usize % 7) + 1, k % 3 == 0)).collect();
+            cases.par_iter().for_each(|(icao_a, j, df18)| {
+                let mk = |ac: usize, icao: u32, k: usize, lat0: f64, lon0: f64, off: f64| Report { ac, icao, ts: T0 + off + 0.5 * k as f64, arrival: T0 + off + 0.5 * k as f64, lat: lat0 + 0.0011 * k as f64, lon: lon0 + 0.0007 * k as f64, surface: false, odd: k % 2 == 1, df18: *df18 && ac == 1, alt_ft: 30_000 + 25 * k as i32, filler: 0, only_filler: false };
+                let a: Vec<Report> = (0..10).map(|k| mk(0, *icao_a, k, 48.0, 2.0, 0.0)).collect();
+                let target = frame_of(&a[*j]);
+                // frame_of draws the carrier's type code, capability and status bits from a hash that includes the address:
+                // solve for a fixed carrier, keep the solution whose own carrier is that very one (about 1 try in 1700)
+                let Some(addr) = (1u32..200_000).find_map(|x0| {
+                    let f0 = frame_of(&mk(1, 0x700000 + x0, *j - 1, 41.0, -3.5, 0.25));
+                    let (ca, me): (u8, [u8; 7]) = (f0[0] & 7, f0[4..11].try_into().unwrap());
+                    let carrier = |a: u32| if f0[0] >> 3 == 18 { enc::df18(ca, a, &me) } else { enc::df17(ca, a, &me) };
+                    let x1 = crate::c10::solve_address(&target[target.len() - 3..], carrier);
+                    (x1 != *icao_a && frame_of(&mk(1, x1, *j - 1, 41.0, -3.5, 0.25)) == carrier(x1)).then_some(x1)
+                }) else {
+                    ctx.exclude("no second aircraft with coinciding parity bytes found");
+                    return;
+                };
+                let b: Vec<Report> = (0..10).map(|k| mk(1, addr, k, 41.0, -3.5, 0.25)).collect();
+                assert_eq!(frame_of(&b[*j - 1])[11..], target[11..], "parity coincidence not constructed");
+                let mut reports: Vec<Report> = a.into_iter().chain(b).collect();
+                reports.sort_by(|x, y| x.ts.partial_cmp(&y.ts).unwrap());
+                let h = Hist { reference: None, plans: vec![], lowalt: false, hide_ref: false };
+                let mut rep = replay_json(&h, &reports);
+                rep["via"] = json!("decode1090");
+                rep["dedup"] = json!("default");
+                ctx.class("two aircraft whose frames coincide in their parity bytes, through decode1090's default 400 ms grouping");
+                ctx.judge(check_cli_reports(ctx, &bin, None, false, &reports, &rep));
+            });
             let n_cli = ctx.tier.pick(320u32, 6_400u32);
             (0..shards).into_par_iter().for_each(|s| {
                 run_prop(ctx, &format!("cli-{s}"), n_cli / shards, prop_oneof![2 => hist(false), 2 => hist(true), 1 => hist_lowalt(), 1 => hist_hidden()], |h| {
